@@ -139,10 +139,34 @@ class Gen:
             parts.append(self.wrap(self.expr(d - 1)))
         return " |> ".join(parts)
 
+    DATA_VALUES = ["(:a = 5, :b = (:c = 1,))", "(:a = (:b = 5,),)", "(1 2 3)", '"abc"', "(1..5)", "((1 2) <> (3 4))",
+                   "(:a = 1, :a = 2, :a = 3)", "(:a = (:b = (:c = 1,),),)", "(:a = 5)", ":a", "5", "()", "((1 2 3) ~ 1)"]
+    INDEX_VALUES = [":a", ":x", ":a.c", ":b.c", ":b.x", ":a.b", ":a.b.c", ":a.b.x", ":x.a", ":x.b", ":b.0", ":b.5", ":a.0.b",
+                    "0", "1", "7", "-1", "(0..1)", "(1..9)", "1.5", "()", "(1 2)", '"a"']
+
+    def data_apply(self):
+        """a data value applied to an index-like value (hits and misses: the apply must push exactly one result)"""
+        r = self.rng
+        x, y = r.choice(self.DATA_VALUES), r.choice(self.INDEX_VALUES)
+        core = "%s <~ %s" % (x, y) if r.random() < 0.7 else "%s ~> %s" % (y, x)
+        k = r.random()
+        if k < 0.45:
+            return core
+        if k < 0.6:
+            return "1, (%s), 3" % core
+        if k < 0.75:
+            return "5 + (%s)" % core
+        n = r.choice([0, 1, 2, 4])
+        if k < 0.9:
+            return "{ [%s] $ < %d ?> ^~ ($ + 1) |> $ } <~ 0" % (core, n)
+        return "{ $ < %d ?> ^~ ($ + 1) |> (%s) } <~ 0" % (n, core)
+
     def expr(self, d):
         r = self.rng
         if d <= 0:
             return self.atom()
+        if r.random() < 0.05:
+            return self.data_apply()
         k = r.random()
         if k < 0.18:
             return self.atom()
@@ -236,6 +260,9 @@ FIXED_SOURCES = [
     "5 ;;", ";;", "1 ?> 2 ;;",
     "1 + (5 ?> { })", "{ $ < 3 ?> ({ } <~ ($ + 1)) |> $ } <~ 0", "{ $ >= 3 ?> $ |> ({ } <~ ($ + 1)) } <~ 0", "a && { }", "5 ?> { }",
     "1 + (a || { })", "[ ]", "[ 5 ]", "1 [ ]", "5 ~~ [6]", "(1 2) [3] 4",
+    "(:a = (:b = 5,),) <~ :a.b", "(:a = (:b = 5,),) <~ :a.c", "(:a = (:b = 5,),) <~ :x.b", "1, ((:a = (:b = 5,),) <~ :a.c), 3",
+    "{ [(:a = (:b = 5,),) <~ :a.c] $ < 3 ?> ^~ ($ + 1) |> $ } <~ 0", "(1 2 3) <~ 7", "(1 2 3) <~ :b.0", "\"abc\" <~ 5", "(1..5) <~ 9",
+    "1 (5) [2] 3", "1, (5) [2], 3", "{5} [2] 3", "7 + (1 (5) [2] 3)",
 ]
 
 
